@@ -22,6 +22,10 @@
 EXTENDS LockContract
 
 CONSTANTS Readers, Writers, Rounds, Grace, MaxT, AllowShutdown, AllowParentCancel, GraceFromAdmission,
+          AutoReleaseOnCtxEnd,  \* TRUE: defect variant - a reader is released (wg.Done, entry removed) as soon as its context ends for
+                                \* any reason, e.g. its parent's, although it has not called its release func
+          CancelAfterDone,      \* TRUE: defect variant - the grace-cancel first publishes "reader gone" (wg.Done, entry removed) and
+                                \* cancels the reader's context only afterwards, outside the lock: two steps
           DeleteOnEveryRelease, \* TRUE: defect variant - a reader's release func removes the registry entry under its id on
                                 \* EVERY call, not only the first: after a writer restarted the ids it removes a later reader's
           ErrButAdmitted   \* TRUE: defect variant - RLock's second select also returns on the caller's context, although
@@ -29,12 +33,12 @@ CONSTANTS Readers, Writers, Rounds, Grace, MaxT, AllowShutdown, AllowParentCance
 G == Readers \cup Writers
 Ids == 0..(Cardinality(Readers) * Rounds)     \* rcancels keys: rcancelx restarts at 0 with every writer
 
-VARIABLES now, closed, chq, srv, sg, lslot, reg, ents, rid, nextId, grace, cause, admittedAt, resp, pcancelled, told,
+VARIABLES now, closed, chq, srv, sg, lslot, reg, pcl, ents, rid, nextId, grace, cause, admittedAt, resp, pcancelled, told,
           sdheld, viaSd, pc, left, c
-vars == <<now, closed, chq, srv, sg, lslot, reg, ents, rid, nextId, grace, cause, admittedAt, resp, pcancelled, told, sdheld, viaSd, pc, left, c>>
+vars == <<now, closed, chq, srv, sg, lslot, reg, pcl, ents, rid, nextId, grace, cause, admittedAt, resp, pcancelled, told, sdheld, viaSd, pc, left, c>>
 
 Ev(n, g) == [ev |-> n, g |-> g]
-Init == /\ now = 0 /\ closed = FALSE /\ chq = 0 /\ srv = "loop" /\ sg = 0 /\ lslot = 0 /\ reg = {}
+Init == /\ now = 0 /\ closed = FALSE /\ chq = 0 /\ srv = "loop" /\ sg = 0 /\ lslot = 0 /\ reg = {} /\ pcl = {}
         /\ ents = [i \in Ids |-> 0] /\ rid = [r \in Readers |-> 0] /\ nextId = 0
         /\ grace = [r \in Readers |-> -1] /\ cause = [r \in Readers |-> "none"] /\ admittedAt = [r \in Readers |-> 0]
         /\ resp = [g \in G |-> "none"] /\ pcancelled = [r \in Readers |-> FALSE] /\ told = [r \in Readers |-> FALSE]
@@ -61,31 +65,31 @@ Call(g) == /\ pc[g] = "idle" /\ left[g] > 0 /\ pc' = [pc EXCEPT ![g] = "call"]
                                     /\ cause' = [cause EXCEPT ![g] = "none"] /\ UNCHANGED viaSd
                                ELSE viaSd' = [viaSd EXCEPT ![g] = FALSE] /\ UNCHANGED <<pcancelled, told, cause>>
            /\ resp' = [resp EXCEPT ![g] = "none"]
-           /\ UNCHANGED <<now, closed, chq, srv, sg, lslot, reg, ents, rid, nextId, grace, admittedAt, sdheld, left>>
+           /\ UNCHANGED <<now, closed, chq, srv, sg, lslot, reg, pcl, ents, rid, nextId, grace, admittedAt, sdheld, left>>
 
 (* RLock, outercancel.go:171-191 *)
 RSelect1(g) == /\ g \in Readers /\ pc[g] = "call"
                /\ \/ (closed \/ pcancelled[g]) /\ pc' = [pc EXCEPT ![g] = "reterr"] /\ UNCHANGED chq
                   \/ chq = 0 /\ chq' = g /\ pc' = [pc EXCEPT ![g] = "wait"]
-               /\ UNCHANGED <<now, closed, srv, sg, lslot, reg, ents, rid, nextId, grace, cause, admittedAt, resp, pcancelled, told, sdheld, viaSd, left, c>>
+               /\ UNCHANGED <<now, closed, srv, sg, lslot, reg, pcl, ents, rid, nextId, grace, cause, admittedAt, resp, pcancelled, told, sdheld, viaSd, left, c>>
 RSelect2(g) == /\ g \in Readers /\ pc[g] = "wait"
                /\ \/ closed /\ pc' = [pc EXCEPT ![g] = "reterr"]
                   \/ resp[g] = "ok" /\ pc' = [pc EXCEPT ![g] = "ret"]
                   \/ resp[g] = "err" /\ pc' = [pc EXCEPT ![g] = "reterr"]
                   \/ ErrButAdmitted /\ pcancelled[g] /\ pc' = [pc EXCEPT ![g] = "reterr"]
-               /\ UNCHANGED <<now, closed, chq, srv, sg, lslot, reg, ents, rid, nextId, grace, cause, admittedAt, resp, pcancelled, told, sdheld, viaSd, left, c>>
+               /\ UNCHANGED <<now, closed, chq, srv, sg, lslot, reg, pcl, ents, rid, nextId, grace, cause, admittedAt, resp, pcancelled, told, sdheld, viaSd, left, c>>
 (* Lock, outercancel.go:148-169 *)
 WSelect1(g) == /\ g \in Writers /\ pc[g] = "call"
                /\ \/ closed /\ pc' = [pc EXCEPT ![g] = "sd"] /\ UNCHANGED chq
                   \/ chq = 0 /\ chq' = g /\ pc' = [pc EXCEPT ![g] = "wait"]
-               /\ UNCHANGED <<now, closed, srv, sg, lslot, reg, ents, rid, nextId, grace, cause, admittedAt, resp, pcancelled, told, sdheld, viaSd, left, c>>
+               /\ UNCHANGED <<now, closed, srv, sg, lslot, reg, pcl, ents, rid, nextId, grace, cause, admittedAt, resp, pcancelled, told, sdheld, viaSd, left, c>>
 WSelect2(g) == /\ g \in Writers /\ pc[g] = "wait"
                /\ \/ closed /\ pc' = [pc EXCEPT ![g] = "sd"]
                   \/ resp[g] = "ok" /\ pc' = [pc EXCEPT ![g] = "ret"]
-               /\ UNCHANGED <<now, closed, chq, srv, sg, lslot, reg, ents, rid, nextId, grace, cause, admittedAt, resp, pcancelled, told, sdheld, viaSd, left, c>>
+               /\ UNCHANGED <<now, closed, chq, srv, sg, lslot, reg, pcl, ents, rid, nextId, grace, cause, admittedAt, resp, pcancelled, told, sdheld, viaSd, left, c>>
 WShutdownLock(g) == /\ g \in Writers /\ pc[g] = "sd" /\ sdheld = 0 /\ sdheld' = g /\ viaSd' = [viaSd EXCEPT ![g] = TRUE]
                     /\ pc' = [pc EXCEPT ![g] = "ret"]
-                    /\ UNCHANGED <<now, closed, chq, srv, sg, lslot, reg, ents, rid, nextId, grace, cause, admittedAt, resp, pcancelled, told, left, c>>
+                    /\ UNCHANGED <<now, closed, chq, srv, sg, lslot, reg, pcl, ents, rid, nextId, grace, cause, admittedAt, resp, pcancelled, told, left, c>>
 
 Ret(g) == /\ pc[g] = "ret" /\ pc' = [pc EXCEPT ![g] = "in"]
           /\ LET c1 == CNext(c, [ev |-> "acq_ret", g |-> g, ok |-> TRUE, now |-> now])
@@ -93,33 +97,33 @@ Ret(g) == /\ pc[g] = "ret" /\ pc' = [pc EXCEPT ![g] = "in"]
                  c2 == IF g \in Readers /\ cause[g] # "none" THEN CNext(c1, [ev |-> "told_to_stop", g |-> g, cause |-> cause[g], now |-> now]) ELSE c1
              IN c' = CNext(c2, Ev("enter", g))
           /\ told' = IF g \in Readers /\ cause[g] # "none" THEN [told EXCEPT ![g] = TRUE] ELSE told
-          /\ UNCHANGED <<now, closed, chq, srv, sg, lslot, reg, ents, rid, nextId, grace, cause, admittedAt, resp, pcancelled, sdheld, viaSd, left>>
+          /\ UNCHANGED <<now, closed, chq, srv, sg, lslot, reg, pcl, ents, rid, nextId, grace, cause, admittedAt, resp, pcancelled, sdheld, viaSd, left>>
 RetErr(g) == /\ pc[g] = "reterr" /\ pc' = [pc EXCEPT ![g] = "idle"] /\ left' = [left EXCEPT ![g] = @ - 1]
              /\ c' = CNext(c, [ev |-> "acq_ret", g |-> g, ok |-> FALSE, now |-> now])
-             /\ UNCHANGED <<now, closed, chq, srv, sg, lslot, reg, ents, rid, nextId, grace, cause, admittedAt, resp, pcancelled, told, sdheld, viaSd>>
+             /\ UNCHANGED <<now, closed, chq, srv, sg, lslot, reg, pcl, ents, rid, nextId, grace, cause, admittedAt, resp, pcancelled, told, sdheld, viaSd>>
 Exit(g) == /\ pc[g] = "in" /\ pc' = [pc EXCEPT ![g] = "unl"]
            /\ c' = CNext2(c, Ev("exit", g), [ev |-> "rel_call", g |-> g, how |-> IF g \in Writers THEN "unlock" ELSE "runlock"])
-           /\ UNCHANGED <<now, closed, chq, srv, sg, lslot, reg, ents, rid, nextId, grace, cause, admittedAt, resp, pcancelled, told, sdheld, viaSd, left>>
-RRelease(g) == /\ g \in Readers /\ pc[g] = "unl" /\ RCancelVars(g)
+           /\ UNCHANGED <<now, closed, chq, srv, sg, lslot, reg, pcl, ents, rid, nextId, grace, cause, admittedAt, resp, pcancelled, told, sdheld, viaSd, left>>
+RRelease(g) == /\ g \in Readers /\ pc[g] = "unl" /\ RCancelVars(g) /\ UNCHANGED pcl
                /\ pc' = [pc EXCEPT ![g] = "idle"] /\ left' = [left EXCEPT ![g] = @ - 1] /\ c' = CNext(c, Ev("rel_ret", g))
                /\ UNCHANGED <<now, closed, chq, srv, sg, lslot, grace, admittedAt, resp, pcancelled, told, sdheld, viaSd>>
 (* the release func called once more after the release (a deferred call after an explicit one): a no-op *)
-RReleaseAgain(g) == /\ g \in Readers /\ pc[g] = "idle" /\ left[g] < Rounds /\ resp[g] = "ok" /\ RCancelVars(g)
+RReleaseAgain(g) == /\ g \in Readers /\ pc[g] = "idle" /\ left[g] < Rounds /\ resp[g] = "ok" /\ RCancelVars(g) /\ UNCHANGED pcl
                     /\ UNCHANGED <<now, closed, chq, srv, sg, lslot, grace, admittedAt, resp, pcancelled, told, sdheld, viaSd, pc, left, c>>
 WRelease(g) == /\ g \in Writers /\ pc[g] = "unl"
                /\ IF viaSd[g] THEN sdheld' = 0 /\ UNCHANGED lslot ELSE lslot = 1 /\ lslot' = 0 /\ UNCHANGED sdheld
                /\ pc' = [pc EXCEPT ![g] = "idle"] /\ left' = [left EXCEPT ![g] = @ - 1] /\ c' = CNext(c, Ev("rel_ret", g))
-               /\ UNCHANGED <<now, closed, chq, srv, sg, reg, ents, rid, nextId, grace, cause, admittedAt, resp, pcancelled, told, viaSd>>
+               /\ UNCHANGED <<now, closed, chq, srv, sg, reg, pcl, ents, rid, nextId, grace, cause, admittedAt, resp, pcancelled, told, viaSd>>
 
 (* the server, outercancel.go:67-146 *)
 SrvRecv == /\ srv = "loop" /\ chq # 0 /\ sg' = chq /\ chq' = 0 /\ srv' = "slot"
-           /\ UNCHANGED <<now, closed, lslot, reg, ents, rid, nextId, grace, cause, admittedAt, resp, pcancelled, told, sdheld, viaSd, pc, left, c>>
+           /\ UNCHANGED <<now, closed, lslot, reg, pcl, ents, rid, nextId, grace, cause, admittedAt, resp, pcancelled, told, sdheld, viaSd, pc, left, c>>
 SrvReaderGone == /\ srv = "slot" /\ sg \in Readers /\ pcancelled[sg]           \* case <-h.rctx.Done()
                  /\ resp' = [resp EXCEPT ![sg] = "err"] /\ srv' = "loop"
-                 /\ UNCHANGED <<now, closed, chq, sg, lslot, reg, ents, rid, nextId, grace, cause, admittedAt, pcancelled, told, sdheld, viaSd, pc, left, c>>
+                 /\ UNCHANGED <<now, closed, chq, sg, lslot, reg, pcl, ents, rid, nextId, grace, cause, admittedAt, pcancelled, told, sdheld, viaSd, pc, left, c>>
 SrvAdmitReader == /\ srv = "slot" /\ sg \in Readers /\ lslot = 0            \* slot taken, reader registered, answered, slot freed
                   /\ reg' = reg \cup {sg} /\ admittedAt' = [admittedAt EXCEPT ![sg] = now]
-                  /\ ents' = [ents EXCEPT ![nextId] = sg] /\ rid' = [rid EXCEPT ![sg] = nextId] /\ nextId' = nextId + 1
+                  /\ ents' = [ents EXCEPT ![nextId] = sg] /\ rid' = [rid EXCEPT ![sg] = nextId] /\ nextId' = nextId + 1 /\ UNCHANGED pcl
                   /\ cause' = [cause EXCEPT ![sg] = IF pcancelled[sg] THEN "parent" ELSE "none"]
                   /\ grace' = [grace EXCEPT ![sg] = -1]
                   /\ resp' = [resp EXCEPT ![sg] = "ok"] /\ srv' = "loop"
@@ -128,18 +132,32 @@ SrvWriterSlot == /\ srv = "slot" /\ sg \in Writers /\ lslot = 0 /\ lslot' = 1
                  /\ grace' = [r \in Readers |-> IF r \in Registered THEN (IF GraceFromAdmission THEN admittedAt[r] + Grace ELSE now + Grace) ELSE grace[r]]
                  /\ nextId' = 0 /\ UNCHANGED <<ents, rid>>
                  /\ srv' = "wwait"
-                 /\ UNCHANGED <<now, closed, chq, sg, reg, cause, admittedAt, resp, pcancelled, told, sdheld, viaSd, pc, left, c>>
+                 /\ UNCHANGED <<now, closed, chq, sg, reg, pcl, cause, admittedAt, resp, pcancelled, told, sdheld, viaSd, pc, left, c>>
 SrvWriterGrant == /\ srv = "wwait" /\ reg = {} /\ resp' = [resp EXCEPT ![sg] = "ok"] /\ srv' = "loop"
-                  /\ UNCHANGED <<now, closed, chq, sg, lslot, reg, ents, rid, nextId, grace, cause, admittedAt, pcancelled, told, sdheld, viaSd, pc, left, c>>
+                  /\ UNCHANGED <<now, closed, chq, sg, lslot, reg, pcl, ents, rid, nextId, grace, cause, admittedAt, pcancelled, told, sdheld, viaSd, pc, left, c>>
 SrvExit == /\ srv = "loop" /\ closed /\ srv' = "exited"
            /\ grace' = [r \in Readers |-> IF r \in Registered /\ grace[r] = -1 THEN now ELSE grace[r]]     \* deferred: go cancel() for every rcancels entry
-           /\ UNCHANGED <<now, closed, chq, sg, lslot, reg, ents, rid, nextId, cause, admittedAt, resp, pcancelled, told, sdheld, viaSd, pc, left, c>>
+           /\ UNCHANGED <<now, closed, chq, sg, lslot, reg, pcl, ents, rid, nextId, cause, admittedAt, resp, pcancelled, told, sdheld, viaSd, pc, left, c>>
 (* a launched rcancelGrace goroutine: timer | closeCh | doneCh, then rcancel *)
 GraceFire(r) == /\ grace[r] >= 0 /\ (now >= grace[r] \/ closed \/ r \notin reg)
-                /\ RCancelVars(r) /\ grace' = [grace EXCEPT ![r] = -1]
-                /\ c' = IF r \in reg /\ cause[r] = "none" THEN Tell(c, r, "configured") ELSE c
-                /\ told' = IF r \in reg /\ cause[r] = "none" /\ TellFlag(r) THEN [told EXCEPT ![r] = TRUE] ELSE told
+                /\ grace' = [grace EXCEPT ![r] = -1]
+                /\ IF CancelAfterDone /\ r \in reg
+                   THEN \* defect: "reader gone" is published first, the context is cancelled in a later step
+                        /\ reg' = reg \ {r} /\ ents' = [ents EXCEPT ![rid[r]] = 0] /\ pcl' = pcl \cup {r}
+                        /\ UNCHANGED <<cause, rid, nextId, c, told>>
+                   ELSE /\ RCancelVars(r) /\ UNCHANGED pcl
+                        /\ c' = IF r \in reg /\ cause[r] = "none" THEN Tell(c, r, "configured") ELSE c
+                        /\ told' = IF r \in reg /\ cause[r] = "none" /\ TellFlag(r) THEN [told EXCEPT ![r] = TRUE] ELSE told
                 /\ UNCHANGED <<now, closed, chq, srv, sg, lslot, admittedAt, resp, pcancelled, sdheld, viaSd, pc, left>>
+(* defect CancelAfterDone: the second half of the grace-cancel *)
+LateCancel(r) == /\ r \in pcl /\ pcl' = pcl \ {r}
+                 /\ cause' = [cause EXCEPT ![r] = IF @ = "none" THEN "configured" ELSE @]
+                 /\ c' = IF cause[r] = "none" THEN Tell(c, r, "configured") ELSE c
+                 /\ told' = IF cause[r] = "none" /\ TellFlag(r) THEN [told EXCEPT ![r] = TRUE] ELSE told
+                 /\ UNCHANGED <<now, closed, chq, srv, sg, lslot, reg, ents, rid, nextId, grace, admittedAt, resp, pcancelled, sdheld, viaSd, pc, left>>
+(* defect AutoReleaseOnCtxEnd: context.AfterFunc(rctx, rcancel) *)
+AutoRelease(r) == /\ AutoReleaseOnCtxEnd /\ r \in reg /\ cause[r] # "none" /\ RCancelVars(r) /\ UNCHANGED pcl
+                  /\ UNCHANGED <<now, closed, chq, srv, sg, lslot, grace, admittedAt, resp, pcancelled, told, sdheld, viaSd, pc, left, c>>
 
 (* environment *)
 ParentCancel(r) == /\ AllowParentCancel /\ pc[r] \in {"call", "wait", "ret", "in"} /\ ~pcancelled[r]
@@ -149,27 +167,27 @@ ParentCancel(r) == /\ AllowParentCancel /\ pc[r] \in {"call", "wait", "ret", "in
                       IN /\ cause' = [cause EXCEPT ![r] = IF first THEN "parent" ELSE @]
                          /\ c' = IF first THEN Tell(CNext(c, Ev("cancel", r)), r, "parent") ELSE CNext(c, Ev("cancel", r))
                          /\ told' = IF first /\ TellFlag(r) THEN [told EXCEPT ![r] = TRUE] ELSE told
-                   /\ UNCHANGED <<now, closed, chq, srv, sg, lslot, reg, ents, rid, nextId, grace, admittedAt, resp, sdheld, viaSd, pc, left>>
+                   /\ UNCHANGED <<now, closed, chq, srv, sg, lslot, reg, pcl, ents, rid, nextId, grace, admittedAt, resp, sdheld, viaSd, pc, left>>
 Shutdown == /\ AllowShutdown /\ ~closed /\ closed' = TRUE /\ c' = CNext(c, [ev |-> "shutdown"])
-            /\ UNCHANGED <<now, chq, srv, sg, lslot, reg, ents, rid, nextId, grace, cause, admittedAt, resp, pcancelled, told, sdheld, viaSd, pc, left>>
+            /\ UNCHANGED <<now, chq, srv, sg, lslot, reg, pcl, ents, rid, nextId, grace, cause, admittedAt, resp, pcancelled, told, sdheld, viaSd, pc, left>>
 (* Observation discipline of the harness (testing/synctest bubble): the virtual clock moves only while EVERY        *)
 (* goroutine of the bubble is blocked - the clients (so a client records the return of its call at the instant the  *)
 (* call returned), the serving goroutine and the grace timers (a timer fires at its deadline, never early; nothing  *)
 (* else can happen in between).  The contract's "writer delayed with nothing held" law relies on it.               *)
 ClientRuns == \E g \in G : ENABLED (RSelect1(g) \/ RSelect2(g) \/ WSelect1(g) \/ WSelect2(g) \/ WShutdownLock(g) \/ Ret(g) \/ RetErr(g) \/ RRelease(g) \/ WRelease(g))
 LibRuns == \/ ENABLED (SrvRecv \/ SrvReaderGone \/ SrvAdmitReader \/ SrvWriterSlot \/ SrvWriterGrant \/ SrvExit)
-           \/ \E r \in Readers : ENABLED GraceFire(r)
+           \/ \E r \in Readers : ENABLED (GraceFire(r) \/ LateCancel(r) \/ AutoRelease(r))
 Tick == /\ now < MaxT /\ ~ClientRuns /\ ~LibRuns /\ now' = now + 1 /\ c' = CNext(c, [ev |-> "adv", now |-> now + 1])
-        /\ UNCHANGED <<closed, chq, srv, sg, lslot, reg, ents, rid, nextId, grace, cause, admittedAt, resp, pcancelled, told, sdheld, viaSd, pc, left>>
+        /\ UNCHANGED <<closed, chq, srv, sg, lslot, reg, pcl, ents, rid, nextId, grace, cause, admittedAt, resp, pcancelled, told, sdheld, viaSd, pc, left>>
 
 Progress == \/ SrvRecv \/ SrvReaderGone \/ SrvAdmitReader \/ SrvWriterSlot \/ SrvWriterGrant \/ SrvExit
-            \/ \E r \in Readers : GraceFire(r)
+            \/ \E r \in Readers : GraceFire(r) \/ LateCancel(r) \/ AutoRelease(r)
             \/ \E g \in G : Call(g) \/ RSelect1(g) \/ RSelect2(g) \/ WSelect1(g) \/ WSelect2(g) \/ WShutdownLock(g)
                             \/ Ret(g) \/ RetErr(g) \/ Exit(g) \/ RRelease(g) \/ RReleaseAgain(g) \/ WRelease(g)
 (* end of run: nothing can move, no timer is pending: whoever still waits will wait forever *)
 Stuck == /\ ~ENABLED Progress /\ \A r \in Readers : grace[r] = -1
          /\ \E g \in G : pc[g] \in {"call", "wait", "sd", "unl"} /\ c' = CNext(c, Ev("stuck", g))
-         /\ UNCHANGED <<now, closed, chq, srv, sg, lslot, reg, ents, rid, nextId, grace, cause, admittedAt, resp, pcancelled, told, sdheld, viaSd, pc, left>>
+         /\ UNCHANGED <<now, closed, chq, srv, sg, lslot, reg, pcl, ents, rid, nextId, grace, cause, admittedAt, resp, pcancelled, told, sdheld, viaSd, pc, left>>
 
 Next == Progress \/ Stuck \/ Shutdown \/ Tick \/ \E r \in Readers : ParentCancel(r)
 Spec == Init /\ [][Next]_vars /\ WF_vars(Progress) /\ WF_vars(Tick)
